@@ -9,6 +9,7 @@ import (
 	"runtime"
 	"sort"
 	"strings"
+	"sync"
 	"testing"
 	"time"
 
@@ -21,18 +22,30 @@ import (
 // once a budget is exceeded, so an endless loop shows up as a verdict.
 type countingReaderAt struct {
 	r        *bytes.Reader
+	mu       sync.Mutex // an io.ReaderAt may be read by several goroutines at once (a decoder reading ahead)
 	calls    int
 	budget   int
 	exceeded bool
 	eager    bool // report io.EOF together with a read that ends exactly at the end of the input
 }
 
+func (c *countingReaderAt) over() bool {
+	c.mu.Lock()
+	defer c.mu.Unlock()
+	return c.exceeded
+}
+
 var errReadBudget = fmt.Errorf("verif: read budget exceeded")
 
 func (c *countingReaderAt) ReadAt(p []byte, off int64) (int, error) {
+	c.mu.Lock()
 	c.calls++
-	if c.budget > 0 && c.calls > c.budget {
+	over := c.budget > 0 && c.calls > c.budget
+	if over {
 		c.exceeded = true
+	}
+	c.mu.Unlock()
+	if over {
 		return 0, errReadBudget
 	}
 	n, err := c.r.ReadAt(p, off)
@@ -138,7 +151,7 @@ func debOutcome(raw []byte, eager bool) (string, error) {
 	var out string
 	err := withTimeout(20*time.Second, "deb.Load", func() error {
 		d, err := deb.Load(cr, "fuzz.deb")
-		if cr.exceeded {
+		if cr.over() {
 			return errf("deb.Load needed more than %d reads for %d input bytes: it does not advance", cr.budget, len(raw))
 		}
 		if err != nil {
